@@ -78,6 +78,7 @@ func runC11(raw json.RawMessage, w *Writer) {
 		d := vp8Decode(in)
 		// the same descriptor into a VP8Packet that has decoded a descriptor with every field set before
 		usedP := &codecs.VP8Packet{}
+		usedP.SetZeroAllocation(len(in)%2 == 1) // every other case: zero-allocation mode
 		guard(func() { _, _ = usedP.Unmarshal(cloneBytes(vp8Rich)) })
 		u := vp8DecodeInto(usedP, in)
 		w.Emit(Ev{"ev": "decode", "bytes": c.Bytes, "dlen": c.Dlen, "want": c.Want, "wantok": c.WantOk, "res": d["res"], "f": d["f"], "out": d["out"], "head": d["head"],
